@@ -16,6 +16,16 @@
 (*   R  single statements lhs x rhs x cond for the read/written sets       *)
 (*   G  all labelled DAGs with at most MaxN nodes for the dot export       *)
 (*   L  chains of 6..8 nodes with shortcut edges in three list orders      *)
+(*   P  position-selective renaming under aliasing: conditional and plain  *)
+(*      assignments whose identifiers sit in ONE position each (written    *)
+(*      variable, left-hand-side index, right-hand side, condition) x      *)
+(*      filters that admit any subset of them, in histories whose operands *)
+(*      share statement OBJECTS (a stream with itself, a stream with a     *)
+(*      result that still holds its objects)                               *)
+(* Histories carry a flag  alias : 1 = every base stream is built once and *)
+(* the same statement objects are handed in whenever it is used again,     *)
+(* 0 = a fresh copy is built for every use.  (C20_Heap is the model of     *)
+(* what object sharing means for the property.)                            *)
 (* Every complete behaviour is printed as one JSON line.                   *)
 (***************************************************************************)
 EXTENDS C20_Algo, Json
@@ -109,14 +119,56 @@ HPool == <<
 HFuseOps == {Op("fuse", "L", HPool[p], FltDefault) : p \in 1..Len(HPool)}
             \cup {Op("fuse", "R", HPool[p], FltDefault) : p \in 1..Len(HPool)}
             \cup {Op("fuse", "S", << >>, FltDefault)}
+\* filters that single out one position class of the pool's statements: i occurs in
+\* "a <- 5 if i < 3" only in the condition, a only as the written variable; b, f only on
+\* right-hand sides
+HSelFilters == {FltSet(<< "i" >>), FltSet(<< "a" >>), FltSet(<< "b", "f" >>)}
 HDafOps  == {Op("daf", "L", HPool[p], flt) : p \in 1..Len(HPool), flt \in {FltDefault, FltSet(<< "a" >>)}}
             \cup {Op("daf", "R", HPool[p], FltAll) : p \in 1..Len(HPool)}
             \cup {Op("daf", "S", << >>, FltDefault)}
+            \cup {Op("daf", "S", << >>, flt) : flt \in HSelFilters}
+            \cup {Op("daf", "R", HPool[p], FltSet(<< "i" >>)) : p \in 1..Len(HPool)}
+HAlias == {0, 1}
 \* classes of histories: [ops allowed, depth]
 HClasses == CASE Tier = "quick"    -> {[c |-> "mix", d |-> 2], [c |-> "fuse", d |-> 3]}
               [] Tier = "thorough" -> {[c |-> "mix", d |-> 3], [c |-> "fuse", d |-> 4]}
               [] Tier = "sim"      -> {[c |-> "mix", d |-> 5]}
 HOps(c) == IF c = "fuse" THEN HFuseOps ELSE HFuseOps \cup HDafOps
+
+(***************************************************************************)
+(* Mode P: one identifier per position                                     *)
+(***************************************************************************)
+vp == V("p")  vq == V("q")  vr == V("r")  vk == V("k")
+PBodies == <<
+    CaB(vp, vq, Cmp(vr, ">", KI(0))),                           \* 1  p <- q if r > 0
+    CaB(B("Sub", vp, vk), vq, Cmp(vr, ">", KI(0))),             \* 2  p[k] <- q if r > 0
+    CaB(vp, KI(5), Cmp(vr, ">", KI(0))),                        \* 3  p <- 5 if r > 0
+    CaB(vp, Sum2(vq, KI(1)), TrueE),                            \* 4  p <- q + 1   (unconditional)
+    AsB(vp, vq),                                                \* 5  p <- q
+    AsB(B("Sub", vp, vk), KI(5)),                               \* 6  p[k] <- 5
+    CaB(vk, vk, N("LogAnd", << Cmp(vr, ">", KI(0)), vq >>))     \* 7  k <- k if r > 0 and q
+  >>
+NPB == Len(PBodies)
+PNames == << "p", "q", "r", "k" >>
+PFilterSets == IF Tier = "thorough" THEN SUBSET {"p", "q", "r", "k"}
+               ELSE { {}, {"p"}, {"q"}, {"r"}, {"k"}, {"p", "q"}, {"q", "r"}, {"p", "k"}, {"p", "q", "k"} }
+PFilters == {FltDefault} \cup {FltSet(SelectSeq(PNames, LAMBDA x : x \in S)) : S \in PFilterSets}
+PSingles == {<< Mk("s", << >>, PBodies[b]) >> : b \in 1..NPB}
+PPair(b1, b2) == << Mk("s", << >>, PBodies[b1]), Mk("t", << "s" >>, PBodies[b2]) >>
+PPairs == {PPair(b1, b2) : b1 \in {1, 2, 5}, b2 \in {2, 3, 6}}
+PInits == PSingles \cup (IF Tier = "thorough" THEN PPairs ELSE {PPair(1, 3), PPair(2, 6), PPair(5, 2)})
+PXs    == PSingles \cup PPairs
+\* shapes of the histories (all with shared statement objects):
+\*   x  dis(A, X); A' = daf(A, X); daf(A', A')
+\*   s  dis(A, A); A' = daf(A, A); daf(A, A')           A' still holds A's objects
+\*   r  A' = fuse(A, X); daf(A, A')
+PShapes == {"x", "s", "r"}
+POps(c) ==
+    CASE c.shape = "x" -> << Op("dis", "L", c.SB, c.flt), Op("daf", "L", c.SB, c.flt),
+                             Op("daf", "S", << >>, c.flt) >>
+      [] c.shape = "s" -> << Op("dis", "S", << >>, c.flt), Op("daf", "S", << >>, c.flt),
+                             Op("daf", "R", c.SA, c.flt) >>
+      [] c.shape = "r" -> << Op("fuse", "L", c.SB, FltDefault), Op("daf", "R", c.SA, c.flt) >>
 
 (***************************************************************************)
 (* Mode R: statements for the read / written sets                          *)
@@ -169,13 +221,15 @@ LStream(c) == [p \in 1..c.n |->
 (***************************************************************************)
 Init ==
     IF Tier = "sim"
-    THEN mode = "H" /\ st \in {[cls |-> c, init |-> HPool[p], ops |-> << >>] :
-                                  c \in HClasses, p \in 1..Len(HPool)}
+    THEN mode = "H" /\ st \in {[cls |-> c, init |-> HPool[p], ops |-> << >>, alias |-> al] :
+                                  c \in HClasses, p \in 1..Len(HPool), al \in HAlias}
     ELSE
     \/ "F" \in Modes /\ mode = "F" /\ st \in {[SA |-> S, SB |-> << >>, stage |-> 0] : S \in SkelsA}
     \/ "D" \in Modes /\ mode = "D" /\ st \in {[SA |-> S, SB |-> << >>, flt |-> FltDefault, stage |-> 0] : S \in DStreamsA}
-    \/ "H" \in Modes /\ mode = "H" /\ st \in {[cls |-> c, init |-> HPool[p], ops |-> << >>] :
-                                c \in HClasses, p \in 1..Len(HPool)}
+    \/ "H" \in Modes /\ mode = "H" /\ st \in {[cls |-> c, init |-> HPool[p], ops |-> << >>, alias |-> al] :
+                                c \in HClasses, p \in 1..Len(HPool), al \in HAlias}
+    \/ "P" \in Modes /\ mode = "P" /\ st \in {[SA |-> S, SB |-> << >>, flt |-> FltDefault, shape |-> sh, stage |-> 0] :
+                                S \in PInits, sh \in PShapes}
     \/ "R" \in Modes /\ mode = "R" /\ st \in {[s |-> s] : s \in RStmts}
     \/ "G" \in Modes /\ mode = "G" /\ st \in {[n |-> n, d |-> << >>] : n \in 0..MaxN}
     \/ "L" \in Modes /\ mode = "L" /\ st \in LCases
@@ -188,6 +242,10 @@ Next ==
           /\ \E S \in DStreamsB : st' = [st EXCEPT !.SB = S, !.stage = 1]
        \/ /\ mode = "D" /\ st.stage = 1
           /\ \E flt \in DFilters : st' = [st EXCEPT !.flt = flt, !.stage = 2]
+       \/ /\ mode = "P" /\ st.stage = 0
+          /\ \E S \in (IF st.shape = "s" THEN {<< >>} ELSE PXs) : st' = [st EXCEPT !.SB = S, !.stage = 1]
+       \/ /\ mode = "P" /\ st.stage = 1
+          /\ \E flt \in PFilters : st' = [st EXCEPT !.flt = flt, !.stage = 2]
        \/ /\ mode = "H" /\ Len(st.ops) < st.cls.d
           /\ IF Tier = "sim"
              THEN st' = [st EXCEPT !.ops = Append(@, RandomElement(HOps(st.cls.c)))]
@@ -204,6 +262,7 @@ Complete ==
     CASE mode = "F" -> st.stage = 1
       [] mode = "D" -> st.stage = 2
       [] mode = "H" -> Len(st.ops) = st.cls.d
+      [] mode = "P" -> st.stage = 2
       [] mode = "R" -> TRUE
       [] mode = "G" -> Len(st.d) = st.n
       [] mode = "L" -> TRUE
@@ -215,6 +274,7 @@ Complete ==
 GeneratedWellFormed ==
     /\ mode = "F" /\ Complete => WellFormed(st.SA) /\ WellFormed(st.SB) /\ StreamOK(st.SA) /\ StreamOK(st.SB)
     /\ mode = "D" /\ Complete => WellFormed(st.SA) /\ WellFormed(st.SB) /\ StreamOK(st.SA) /\ StreamOK(st.SB)
+    /\ mode = "P" /\ Complete => WellFormed(st.SA) /\ WellFormed(st.SB) /\ StreamOK(st.SA) /\ StreamOK(st.SB)
     /\ mode = "G" /\ Complete => WellFormed(GStream(st.n, st.d))
     /\ mode = "L" => WellFormed(LStream(st))
     \* the two formulations of acyclicity agree, also on the cyclic candidates
@@ -240,6 +300,10 @@ AlgoRefinesMeaning ==
     /\ mode = "D" /\ Complete =>
           DisClause(st.SA, st.SB, st.flt, DisImplResult(st.SA, st.SB, st.flt, FALSE),
                     DisImplMap(st.SA, st.SB, st.flt, FALSE)) = "OK"
+    /\ mode = "P" /\ Complete =>
+          LET SB == IF st.shape = "s" THEN st.SA ELSE st.SB IN
+          DisClause(st.SA, SB, st.flt, DisImplResult(st.SA, SB, st.flt, FALSE),
+                    DisImplMap(st.SA, SB, st.flt, FALSE)) = "OK"
     /\ mode = "R" => RWClause(st.s, ReadsImpl(st.s, FALSE), WritesImpl(st.s)) = "OK"
     /\ mode = "G" /\ Complete =>
           DotImplEdges(GStream(st.n, st.d)) = TR(DepEdges(GStream(st.n, st.d)))
@@ -256,11 +320,12 @@ Pred ==
       [] OTHER -> "-"
 
 Case ==
-    CASE mode = "F" -> [k |-> "hist", init |-> st.SA, pred |-> Pred,
+    CASE mode = "F" -> [k |-> "hist", init |-> st.SA, pred |-> Pred, alias |-> 0,
                         ops |-> << Op("fuse", "L", st.SB, FltDefault) >>]
-      [] mode = "D" -> [k |-> "hist", init |-> st.SA, pred |-> Pred,
+      [] mode = "D" -> [k |-> "hist", init |-> st.SA, pred |-> Pred, alias |-> 0,
                         ops |-> << Op("dis", "L", st.SB, st.flt), Op("daf", "L", st.SB, st.flt) >>]
-      [] mode = "H" -> [k |-> "hist", init |-> st.init, pred |-> Pred, ops |-> st.ops]
+      [] mode = "H" -> [k |-> "hist", init |-> st.init, pred |-> Pred, alias |-> st.alias, ops |-> st.ops]
+      [] mode = "P" -> [k |-> "hist", init |-> st.SA, pred |-> Pred, alias |-> 1, ops |-> POps(st)]
       [] mode = "R" -> [k |-> "rw", s |-> st.s, pred |-> Pred]
       [] mode = "G" -> [k |-> "dot", S |-> GStream(st.n, st.d), pred |-> Pred]
       [] mode = "L" -> [k |-> "dot", S |-> LStream(st), pred |-> Pred]
